@@ -69,7 +69,7 @@ func (o Op) short() string {
 		return fmt.Sprintf("query%v", o.Q)
 	case "batch":
 		return fmt.Sprintf("batch%v", o.B)
-	case "popen", "pgetcfg":
+	case "popen", "pgetcfg", "psclose":
 		return fmt.Sprintf("%s(st%d)", o.Kind, o.U)
 	case "psetcfg":
 		return fmt.Sprintf("psetcfg(st%d,%v)", o.U, o.Ks)
